@@ -49,6 +49,11 @@ def corpus() -> List[dict]:
                         "own": meta["property"], "r6": r6})
             if r6 and (d / "refactor_ok.diff").exists():
                 out.append({"id": f"twin/{d.name}", "kind": "twin", "path": str(d / "refactor_ok.diff"), "props": list(core.ALL_PROPS), "expect": None, "own": meta["property"], "r6": True})
+    # round 10: commits that sub-agents were asked to make *correct* (with a check script that passes before and after): any VIOLATION is a false alarm
+    for d in sorted((ROOT / "selftest" / "correct").glob("*")):
+        if (d / "patch.diff").exists() and (d / "meta.json").exists():
+            meta = json.loads((d / "meta.json").read_text())
+            out.append({"id": f"correct/{d.name}", "kind": "twin", "path": str(d / "patch.diff"), "props": list(core.ALL_PROPS), "expect": None, "own": meta["property"], "r6": True})
     kf = {k["id"]: k for k in core.load_known_findings() if k.get("status") == "fixed"}
     for f in sorted((ROOT / "selftest" / "fix_reverts").glob("*.diff")):
         k = kf.get(f.stem)
